@@ -247,8 +247,45 @@ def replay_graph(ctx, res, n, sym, family, depth, nrandom, rdepth, budget=None):
     return w
 
 
+def falsy_values(ctx):
+    """"holds exactly the last value assigned", "setUnset fills only entries never assigned", "check() raises exactly when some
+    entry is unset" - for values whose truth value is False (0.0, False, '', an empty list, a one-element zero array): they are SET.
+    The specification's payloads are opaque; this stage binds that opacity for the values a truthiness test would mistake."""
+    import numpy as np
+    from pyPRISM.core.PairTable import PairTable
+    from pyPRISM.core.ValueTable import ValueTable
+    falsy = [0.0, False, '', [], np.array([0.0]), 0]
+    T = NAMES[:3]
+    n = 0
+    for i, val in enumerate(falsy):
+        for sym in (True, False):
+            pt = PairTable(list(T), 'pt', symmetric=sym)
+            vt = ValueTable(list(T), 'vt')
+            pt[T, T] = 7.0
+            vt[T] = 7.0
+            a, b = T[i % 3], T[(i + 1) % 3]
+            pt[a, b] = val
+            vt[a] = val
+            n += 1
+            problems = []
+            for name, table, get in (('PairTable', pt, lambda: pt[a, b]), ('ValueTable', vt, lambda: vt[a])):
+                try:
+                    table.check()
+                except ValueError:
+                    problems.append('%s.check() raises although every entry was assigned' % name)
+                table.setUnset('filled')
+                got = get()
+                same = (type(got) is type(val)) and (np.array_equal(got, val) if isinstance(val, np.ndarray) else got == val)
+                if not same:
+                    problems.append('%s entry assigned %r reads %r after setUnset' % (name, val, got))
+            for what in problems:
+                ctx.violation('FalsyValueIsSet', {'family': 'falsy_values', 'action': 'PTSet', 'value': repr(val), 'symmetric': sym, 'detail': what})
+    ctx.stage('falsy_values', cases=n)
+
+
 def run(ctx):
     thorough = ctx.tier == 'thorough'
+    falsy_values(ctx)
     ctx.notes['rule'] = ('TLC enumerates every reachable abstract table state (alias partition x contents) and '
                          'every public call enabled in it; each exported edge is one case; distinct = distinct '
                          '(state, call) pairs executed on the real classes; a case is non-trivial because every '
